@@ -1087,6 +1087,7 @@ class TrackByName(Harness):
         for g in ("g2", "g3"):
             for order in ("genome", "reversed"):
                 out.append(dict(genome=g, from_dict=order))
+                out.append(dict(genome=g, from_dict=order, streamed=True))      # the class that holds one chromosome at a time
         return out
 
     def inputs(self, skel, V):
@@ -1108,6 +1109,16 @@ class TrackByName(Harness):
             from bionumpy.genomic_data.genomic_track import GenomicArrayGlobal
             names = list(genome)[::-1] if skel["from_dict"] == "reversed" else list(genome)
             d = {nm: GenomicRunLengthArray.from_array(ctx.arr([x[f"d_{nm}_{p}"] for p in range(genome[nm])], "int64")) for nm in names}
+            if skel.get("streamed"):
+                from bionumpy.genomic_data.genomic_track import GenomicArrayNode
+                from bionumpy.computation_graph import compute
+                A = GenomicArrayNode.from_dict(d, bnp.Genome.from_dict(dict(genome))._genome_context)
+                bg = compute(A.get_data())
+                dense = {nm: [None] * genome[nm] for nm in genome}
+                for nm_, a_, b_, v_ in zip(bg.chromosome, ctx.lst(bg.start), ctx.lst(bg.stop), ctx.lst(bg.value)):
+                    for p_ in range(int(a_), int(b_)):
+                        dense[nm_.to_string()][p_] = v_
+                return dict(dense=dense)
             A = GenomicArrayGlobal.from_dict(d, bnp.Genome.from_dict(dict(genome))._genome_context)
             return dict(dense={nm: ctx.lst(v) for nm, v in A.to_dict().items()})
         if skel["prior"]:
